@@ -37,6 +37,8 @@ ASSUMPTIONS = [
 TICK_US = 31250                 # 1/32 s
 NLIGHTS = 4
 COLORS = {1: "ff0000", 2: "00ff00", 3: "0000ff", 4: "ffff00-f250ms", 5: "ff00ff-f500ms"}
+STOPS = {0: "stop", 6: "stop-f250ms", 7: "stop-f0ms"}        # `color: stop` with fade None / 250 ms / 0
+STOP_FADE_US = {0: -1, 6: 250000, 7: 0}
 RGB2CODE = {(255, 0, 0): 1, (0, 255, 0): 2, (0, 0, 255): 3, (255, 255, 0): 4, (255, 0, 255): 5}
 EVKINDS = ["played", "looped", "completed", "stopped", "paused", "resumed", "advanced", "stepped_back", "updated"]
 EVCODE = {"played": 1, "looped": 2, "completed": 3, "stopped": 4, "paused": 5, "resumed": 6, "advanced": 7,
@@ -57,7 +59,7 @@ def gen_show(rng):
         acts = []
         for l in range(NLIGHTS):
             if rng.random() < 0.4:
-                acts.append([l, rng.choice([0, 1, 1, 2, 2, 3, 3, 4, 5])])
+                acts.append([l, rng.choice([0, 1, 1, 2, 2, 3, 3, 4, 5, 0, 6, 7])])
         steps.append({"d": d, "a": acts})
     form = rng.choice(["dur", "dur", "rel", "abs"])
     if any(s["d"] < 0 for s in steps[:-1]):
@@ -76,6 +78,16 @@ def gen_show(rng):
 def gen_sched(rng, tier, i):
     ns = rng.choice([1, 1, 2, 2, 3])
     shows = [gen_show(rng) for _ in range(ns)]
+    # lights with a default fade (clear_context / `color: stop` then fade the entry out instead of removing it);
+    # shows of EQUAL priority on the same lights (the light's stack orders and names things by priority and key)
+    if rng.random() < 0.3:
+        fades = [0] * NLIGHTS
+    else:
+        fades = [rng.choice([0, 4, 8, 8, 16]) for _ in range(NLIGHTS)]
+    if rng.random() < 0.5:
+        pr = rng.randint(0, 3)
+        for sh in shows:
+            sh["prio"] = pr
     ops = []
     for sid in range(ns):
         t0 = rng.choice([0, 0, 4, 8, 20, rng.randint(0, 64)])
@@ -101,9 +113,21 @@ def gen_sched(rng, tier, i):
             else:
                 o = ["update", rng.choice([0, 1, 2, 4, 8, 16]), rng.choice([0, 0, 0, 1, 2])]
             ops.append([t, sid] + o)
+    if ns >= 2 and rng.random() < 0.4:
+        # every show stopped at the same / nearby instants (within the fade-out time of the others)
+        ts = max(o[0] for o in ops if o[2] == "play") + rng.choice([2, 8, 8, 16, 24, 40])
+        for sid in range(ns):
+            if rng.random() < 0.9:
+                ops.append([ts + rng.choice([0, 0, 1, 2, 4, 6, 12]), sid, "stop", 0, 0])
+    # look at the stacks around the instants at which fade-outs end
+    stops = [o[0] for o in ops if o[2] == "stop"]
+    for ts in stops:
+        for f in sorted(set(fades + [8]) - {0}):
+            if rng.random() < 0.35:
+                ops.append([ts + f + rng.choice([-1, 0, 0, 1]), 0, "probe", 0, 0])
     ops.sort(key=lambda o: o[0])                                        # stable
     horizon = max(o[0] for o in ops) + rng.choice([16, 64, 96, 160, 200])
-    return {"shows": shows, "ops": ops, "horizon": horizon}
+    return {"shows": shows, "fades": fades, "ops": ops, "horizon": horizon}
 
 
 # ------------------------------------------------------------------------------------------------
@@ -132,7 +156,7 @@ def show_yaml(sh, sid):
             st["time"] = 0
         cum += max(s["d"], 0)
         if s["a"]:
-            st["lights"] = {"l%d" % l: ("stop" if c == 0 else COLORS[c]) for l, c in s["a"]}
+            st["lights"] = {"l%d" % l: (STOPS[c] if c in STOPS else COLORS[c]) for l, c in s["a"]}
         st["events"] = "c17_%d_m%d" % (sid, k)
         out.append(st)
     return out
@@ -175,7 +199,8 @@ def sched_init():
     log = _G["log"]
     from mpf.devices.light import Light
     from mpf.config_players.light_player import LightPlayer
-    oc, orm, occ = Light.color, Light.remove_from_stack_by_key, LightPlayer.clear_context
+    oc, orm, occ, orf = (Light.color, Light.remove_from_stack_by_key, LightPlayer.clear_context,
+                         Light._remove_fade_out)
 
     def color(self, color, fade_ms=None, priority=0, key=None, start_time=None):
         log.append(("set", _G["m"].clock.get_time(), self.name,
@@ -184,8 +209,12 @@ def sched_init():
 
     def rem(self, key, fade_ms=None):
         had = any(e.key == key for e in self.stack)
-        log.append(("clear" if _G["in_clear"] else "rem", _G["m"].clock.get_time(), self.name, None, key, had))
+        log.append(("clear" if _G["in_clear"] else "rem", _G["m"].clock.get_time(), self.name, fade_ms, key, had))
         return orm(self, key, fade_ms)
+
+    def fade_end(self, key):
+        log.append(("fade_end", _G["m"].clock.get_time(), self.name, None, key, None))
+        return orf(self, key)
 
     def clear_context(self, context):
         _G["in_clear"] = True
@@ -195,6 +224,7 @@ def sched_init():
             _G["in_clear"] = False
     Light.color = color
     Light.remove_from_stack_by_key = rem
+    Light._remove_fade_out = fade_end
     LightPlayer.clear_context = clear_context
 
 
@@ -209,7 +239,10 @@ def _leave_case(running, names):
         rig.advance(0)
         del log[:]
         rig.advance(9.0)
-        leaked = bool(log) or bool(rig._exception)
+        # fade-outs of the lights ending is not a leak; anything else a show does after stop() is
+        leaked = any(rec[0] != "fade_end" for rec in log) or bool(rig._exception)
+        for l in range(NLIGHTS):
+            m.lights["l%d" % l].default_fade_ms = 0
     except Exception:
         leaked = True
     for nme in names:
@@ -297,11 +330,15 @@ def run_sched(case, via="api"):
     now = rig.now()
     base = (int(now) // 6 + 1) * 6.0
     rig.advance(base - now)
+    fades = case.get("fades") or [0] * NLIGHTS
     for l in range(NLIGHTS):
         m.lights["l%d" % l].clear_stack()
+        # the attribute Light._initialize sets from `fade_ms:` / `light_settings: default_fade_ms`
+        m.lights["l%d" % l].default_fade_ms = fades[l] * 125 // 4
     rig.advance(0)
     del log[:]
     names = []
+    presnaps = []
     for sid, sh in enumerate(case["shows"]):
         name = "c17_%d_%d" % (_G["n"], sid)
         m.show_controller.register_show(name)
@@ -319,7 +356,10 @@ def run_sched(case, via="api"):
                 rig.advance(target - rig.now())
             log.append(("op", rig.now(), sid, kind))
             sh = case["shows"][sid]
-            if via == "player":
+            presnaps.append(_snapshot(m, ctx2sid) if kind == "stop" else None)
+            if kind == "probe":
+                pass
+            elif via == "player":
                 sp = m.show_controller.show_players["shows"]
                 if kind == "play":
                     st = {"action": "play", "key": "k%d" % sid, "priority": sh["prio"], "speed": sh["speed4"] / 4.0,
@@ -382,6 +422,7 @@ def run_sched(case, via="api"):
     # canonical rows
     ev = [[] for _ in names]
     lops = [[] for _ in names]
+    fends = [[] for _ in names]
     oplog = []
     ui = 0
     for rec in log:
@@ -412,7 +453,9 @@ def run_sched(case, via="api"):
                 st = _us(extra, base) if extra else None
                 lops[sid].append([sid, t, 10, l, RGB2CODE.get(col, -1), st if st is not None else -7])
             elif kind == "rem":
-                lops[sid].append([sid, t, 11, l, 0, 0])
+                lops[sid].append([sid, t, 11, l, -1 if col is None else int(col) * 1000, 0])
+            elif kind == "fade_end":
+                fends[sid].append([sid, t, 13, l, 0, 0])
             elif extra:          # clear_context: only lights that had an entry, canonical order below
                 lops[sid].append([sid, t, 12, l, 0, 0])
     for rows in lops:            # a run of clear rows is a set: sort it
@@ -424,7 +467,9 @@ def run_sched(case, via="api"):
             if j > i + 1:
                 rows[i:j] = sorted(rows[i:j])
             i = max(j, i + 1)
-    out.update(ev=ev, lops=lops, snaps=snaps, finals=finals, oplog=oplog)
+    for rows in fends:           # delays of different lights ending at one instant: a set
+        rows.sort(key=lambda r: (r[1], r[3]))
+    out.update(ev=ev, lops=lops, fends=fends, snaps=snaps, presnaps=presnaps, finals=finals, oplog=oplog)
     _leave_case(running, names)
     return out
 
@@ -442,6 +487,8 @@ def coq_cfg(sh):
 def coq_op(kind, a, b):
     if kind == "play":
         return "UPlay"
+    if kind == "probe":
+        return "UProbe"
     if kind in ("stop", "pause", "resume"):
         return "(UOp %s)" % kind.capitalize()
     if kind == "advance":
@@ -461,13 +508,15 @@ def coq_sched(case, out):
     if out.get("exc"):
         # an exception is not an outcome the model has; the oracle reports it
         return None
-    inp = "(%s, %s, %s, %s)" % (
+    inp = "(%s, %s, %s, %s, %s)" % (
         coqlist(coq_cfg(sh) for sh in case["shows"]),
+        zlist([f * TICK_US for f in (case.get("fades") or [0] * NLIGHTS)]),
         coqlist("(%s,%s,%s)" % (zlit(t * TICK_US), zlit(sid), coq_op(k, a, b)) for t, sid, k, a, b in case["ops"]),
         zlit(case["horizon"] * TICK_US), zlit(fuel(case)))
-    exp = "(%s, %s, %s, %s)" % (
+    exp = "(%s, %s, %s, %s, %s)" % (
         coqlist(zll(rows) for rows in out["ev"]),
         coqlist(zll(rows) for rows in out["lops"]),
+        coqlist(zll(rows) for rows in out["fends"]),
         coqlist(coqlist(zlist([x for e in st for x in e]) for st in snap) for snap in out["snaps"]),
         zll(out["finals"]))
     return "(%s, %s)" % (inp, exp)
@@ -475,7 +524,8 @@ def coq_sched(case, out):
 
 def fuel(case):
     # every timer period is at least one tick; requests add at most one step each
-    return (case["horizon"] + 2) * len(case["shows"]) + len(case["ops"]) + 8
+    # ... and every step / request starts at most one fade-out per light
+    return ((case["horizon"] + 2) * len(case["shows"]) + len(case["ops"]) + 8) * (NLIGHTS + 1)
 
 
 HDR_SCHED = ("From C17 Require Import Model.\nDefinition run := C17.Model.run.\n"
@@ -494,22 +544,49 @@ def oracle_sched(case, out):
     shows = case["shows"]
     for sid, sh in enumerate(shows):
         fails += oracle_show(case, out, sid, sh)
-    # stacks: a show that is stopped owns nothing; at the very end, if every show is stopped, all stacks are empty
-    fin = out["finals"]
-    last = out["snaps"][-1] if out["snaps"] else []
-    for sid in range(len(shows)):
-        if fin[sid][0] == 1 and fin[sid][1] == 1:
-            if any(e[0] == sid for st in last for e in st):
-                fails.append({"sig": "context-left-after-stop",
-                              "what": "show %d is stopped but still owns light stack entries at the horizon" % sid})
-    # frame: a stop request changes nothing of the other shows
-    prev = None
-    for (t, sid, kind, a, b), snap in zip(case["ops"], out["snaps"]):
-        if kind == "stop":
-            if any(e[0] == sid for st in snap for e in st):
-                fails.append({"sig": "context-left-after-stop",
-                              "what": "right after stop() show %d still owns light stack entries" % sid})
-        prev = snap
+    # stacks.  After a show has stopped, what it still has on a light can only be the fade-out of its entry (a light
+    # with a default fade, or `stop-f250ms`), and only until stop + the fade-out time; then nothing of it is left.
+    # What the other shows have on the lights is the same before and after a stop request.
+    fades = case.get("fades") or [0] * NLIGHTS
+    times = [o[0] * TICK_US for o in case["ops"]] + [case["horizon"] * TICK_US]
+    for sid, sh in enumerate(shows):
+        t_stop = [r[1] for r in out["ev"][sid] if r[2] == 4]
+        if not t_stop:
+            continue
+        t_stop = t_stop[0]
+        explicit = set(l for st in sh["steps"] for l, c in st["a"] if c == 6)
+        bad = None
+        for i, (ts, snap) in enumerate(zip(times, out["snaps"])):
+            own_stop = i < len(case["ops"]) and case["ops"][i][1] == sid and case["ops"][i][2] == "stop"
+            if ts < t_stop or (ts == t_stop and not own_stop):
+                continue
+            for l, st in enumerate(snap):
+                until = t_stop + max(fades[l] * TICK_US, 250000 if l in explicit else 0)
+                for e in st:
+                    if e[0] != sid:
+                        continue
+                    if e[1] != -1:
+                        bad = "show %d stopped at %d us but still owns an entry (colour %d) on light %d at %d us" % (
+                            sid, t_stop, e[1], l, ts)
+                    elif ts >= until:
+                        bad = ("show %d stopped at %d us; the fade-out of its entry on light %d (fade-out time %d us) "
+                               "is still on the stack at %d us" % (sid, t_stop, l, until - t_stop, ts))
+            if bad:
+                break
+        if bad:
+            fails.append({"sig": "context-left-after-stop", "what": bad})
+    for i, ((t, sid, kind, a, b), snap) in enumerate(zip(case["ops"], out["snaps"])):
+        pre = out["presnaps"][i] if i < len(out.get("presnaps", [])) else None
+        if kind != "stop" or pre is None:
+            continue
+        if any(r[1] == t * TICK_US for s2 in range(len(shows)) if s2 != sid for r in out["ev"][s2] + out["lops"][s2]):
+            continue             # another show acted at this very instant
+        if any(r[1] == t * TICK_US for s2 in range(len(shows)) if s2 != sid for r in out["fends"][s2]):
+            continue
+        if [[e for e in st if e[0] != sid] for st in pre] != [[e for e in st if e[0] != sid] for st in snap]:
+            fails.append({"sig": "stop-touched-other-show",
+                          "what": "stop() of show %d at tick %d changed the entries other shows have on the lights: "
+                                  "%s -> %s" % (sid, t, pre, snap)})
     return fails
 
 
@@ -519,7 +596,7 @@ def oracle_show(case, out, sid, sh):
     lops = out["lops"][sid]
     cnt = {c: sum(1 for r in ev if r[2] == c) for c in range(0, 10)}
     markers = [r for r in ev if r[2] == 0]
-    myops = [(t * TICK_US, k, a, b) for t, s, k, a, b in case["ops"] if s == sid]
+    myops = [(t * TICK_US, k, a, b) for t, s, k, a, b in case["ops"] if s == sid and k != "probe"]
     play_t = [t for t, k, a, b in myops if k == "play"]
     if not play_t:
         return fails
@@ -657,29 +734,33 @@ def shrink_sched(case):
             ns = shows[:sid] + shows[sid + 1:]
             no = [[t, s - (1 if s > sid else 0), k, a, b] for t, s, k, a, b in ops if s != sid]
             if no:
-                yield {"shows": ns, "ops": no, "horizon": case["horizon"]}
+                yield {"shows": ns, "ops": no, "horizon": case["horizon"], "fades": case.get("fades")}
     # drop a request (never the plays)
     for i, o in enumerate(ops):
         if o[2] != "play":
-            yield {"shows": shows, "ops": ops[:i] + ops[i + 1:], "horizon": case["horizon"]}
+            yield {"shows": shows, "ops": ops[:i] + ops[i + 1:], "horizon": case["horizon"], "fades": case.get("fades")}
     # drop a step / light actions / simplify parameters
     for sid, sh in enumerate(shows):
         for k in range(len(sh["steps"])):
             if len(sh["steps"]) > 1:
                 s2 = dict(sh, steps=sh["steps"][:k] + sh["steps"][k + 1:], form="dur")
-                yield {"shows": shows[:sid] + [s2] + shows[sid + 1:], "ops": ops, "horizon": case["horizon"]}
+                yield {"shows": shows[:sid] + [s2] + shows[sid + 1:], "ops": ops, "horizon": case["horizon"], "fades": case.get("fades")}
             if sh["steps"][k]["a"]:
                 st = dict(sh["steps"][k], a=sh["steps"][k]["a"][1:])
                 s2 = dict(sh, steps=sh["steps"][:k] + [st] + sh["steps"][k + 1:])
-                yield {"shows": shows[:sid] + [s2] + shows[sid + 1:], "ops": ops, "horizon": case["horizon"]}
+                yield {"shows": shows[:sid] + [s2] + shows[sid + 1:], "ops": ops, "horizon": case["horizon"], "fades": case.get("fades")}
         for key, val in (("sync", 0), ("speed4", 4), ("start", 1), ("manual", False), ("running", True),
                          ("form", "dur"), ("prio", 0)):
             if sh[key] != val:
                 s2 = dict(sh, **{key: val})
-                yield {"shows": shows[:sid] + [s2] + shows[sid + 1:], "ops": ops, "horizon": case["horizon"]}
+                yield {"shows": shows[:sid] + [s2] + shows[sid + 1:], "ops": ops, "horizon": case["horizon"], "fades": case.get("fades")}
     last = max(o[0] for o in ops)
     if case["horizon"] > last + 16:
-        yield {"shows": shows, "ops": ops, "horizon": last + (case["horizon"] - last) // 2}
+        yield {"shows": shows, "ops": ops, "horizon": last + (case["horizon"] - last) // 2, "fades": case.get("fades")}
+    fd = case.get("fades") or [0] * NLIGHTS
+    for l in range(NLIGHTS):
+        if fd[l]:
+            yield dict(case, fades=fd[:l] + [0] + fd[l + 1:])
 
 
 def nontrivial_sched(case, out):
@@ -694,7 +775,7 @@ def nontrivial_sched(case, out):
     # a control request that hits a show which has not stopped yet
     live = False
     for t, sid, k, a, b in case["ops"]:
-        if k == "play":
+        if k in ("play", "probe"):
             continue
         st = [r[1] for r in out["ev"][sid] if r[2] == 4]
         if not st or st[0] >= t * TICK_US:
@@ -703,8 +784,9 @@ def nontrivial_sched(case, out):
 
 
 def describe_sched(case):
-    kinds = sorted(set(o[2] for o in case["ops"]) - {"play"})
-    return "shows=%d ops=%s" % (len(case["shows"]), ",".join(kinds) if kinds else "-")
+    kinds = sorted(set(o[2] for o in case["ops"]) - {"play", "probe"})
+    return "shows=%d ops=%s%s" % (len(case["shows"]), ",".join(kinds) if kinds else "-",
+                                  " fade" if any(case.get("fades") or []) else "")
 
 
 # ------------------------------------------------------------------------------------------------
